@@ -25,3 +25,17 @@ var specs = map[string]*propSpec{
 		BudgetQuick: 5 * time.Minute, BudgetThorough: 30 * time.Minute,
 	},
 }
+
+func init() {
+	specs["C16"] = &propSpec{
+		ID:        "C16",
+		Harnesses: []string{"HarnessC16"},
+		Covers:    []string{"C16.empty-list", "C16.by-requested-binding", "C16.by-isDefault", "C16.by-lowest-index"},
+		Assumptions: []string{
+			"bound: ACS list length <= 3 (quick) / <= 6 (thorough)",
+			"registered metadata is schema-valid: Binding and Location non-empty, index a canonical xs:unsignedShort (no sign, no leading zeros, <= 65535), isDefault in {absent,true,false,1,0}",
+			"strconv.Atoi by contract (syntax, sign, range exact over mathematical integers)",
+		},
+		BudgetQuick: 5 * time.Minute, BudgetThorough: 30 * time.Minute,
+	}
+}
